@@ -78,6 +78,17 @@ func Run(ctx *common.Ctx) int {
 			}
 		}
 	}
+	// call sequences inside one process: a parallel workflow of another sample size ran before (on an empty source)
+	for _, pr := range [][2]string{{"Period", "PowerOn"}, {"Period", "Factory"}, {"PowerOn", "Period"}, {"Factory", "Period"}} {
+		w := wf.ByName(pr[0])
+		if quick && w.Name == "Factory" {
+			continue
+		}
+		for _, W := range []int{1, 2} {
+			fast.MkTaskPrimed("C08", "c08", w, "item0-at-threshold", fast.SrcSpec{Kind: "full", Index2: -1}, W, 0, 0, 1, pr[1], &tasks)
+			fast.MkTaskPrimed("C08", "c08", w, "all-pass", fast.SrcSpec{Kind: "uniform", Index2: -1, Size: "half"}, W, 0, 3, 1, pr[1], &tasks)
+		}
+	}
 	ctx.Printf("C08: %d exploration tasks (instrumented constructs: %v)\n", len(tasks), info.Counts)
 	m := e1.RunTasks(ctx, info.Bin, tasks, 0, false)
 	// race pass: same bodies, free-running, -race
